@@ -1,5 +1,258 @@
-"""Regenerate lean/FCA/Generated/*.lean from the source under test (filled in below)."""
-import os
+"""Regenerate lean/FCA/Generated/*.lean from the source under test ($VERIF_REPO, default /repo).
 
-def regenerate(log):
-    return {'status': 'not-implemented-yet'}
+Translated on every run:
+  * the eight order / relation predicates of lattice_members.py and the `common` expressions of
+    Concept.join/meet (Python expression AST -> Lean term; Python truthiness and chained-comparison
+    semantics), -> Generated/Predicates.lean
+  * the pattern / rank / kind table the metaclass of junctors.py builds from the docstrings (read from
+    the imported module), -> Generated/Junctors.lean
+  * the constant tables of the formats (cxt / csv symbols, suffix map, dumps_rstrip flags) and CPython's
+    str.isspace() code-point set, -> Generated/Formats.lean
+
+Anything outside the supported subset makes the translator *decline* (status 'declined'): the property
+then rests on the correspondence tie alone, which main.py records in the evidence.
+"""
+import ast
+import importlib
+import os
+import sys
+
+HERE = os.path.dirname(os.path.abspath(__file__))
+VERIF = os.path.dirname(HERE)
+GEN = os.path.join(VERIF, 'lean', 'FCA', 'Generated')
+REPO = os.environ.get('VERIF_REPO', '/repo')
+
+PREDICATES = ['implies', 'subsumes', 'properly_implies', 'properly_subsumes',
+              'incompatible_with', 'complement_of', 'subcontrary_with', 'orthogonal_to']
+
+
+class Decline(Exception):
+    pass
+
+
+ATTR = {'self._extent': 'x', 'other._extent': 'y', 'self.lattice.supremum._extent': 't'}
+BINOP = {ast.BitAnd: '&&&', ast.BitOr: '|||', ast.BitXor: '^^^'}
+
+
+def dotted(node):
+    if isinstance(node, ast.Name):
+        return node.id
+    if isinstance(node, ast.Attribute):
+        return dotted(node.value) + '.' + node.attr
+    raise Decline('unsupported expression %s' % ast.dump(node))
+
+
+class Tr:
+    """Expression translator; every translated term carries its kind: 'nat' or 'bool'."""
+
+    def __init__(self):
+        self.env = {}
+
+    def expr(self, node):
+        if isinstance(node, ast.Name) and node.id in self.env:
+            return self.env[node.id]
+        if isinstance(node, (ast.Attribute, ast.Name)):
+            path = dotted(node)
+            if path in ATTR:
+                return ATTR[path], 'nat'
+            raise Decline('unsupported name %s' % path)
+        if isinstance(node, ast.BinOp) and type(node.op) in BINOP:
+            (a, ka), (b, kb) = self.expr(node.left), self.expr(node.right)
+            if ka != 'nat' or kb != 'nat':
+                raise Decline('bit operation on a truth value')
+            return '(%s %s %s)' % (a, BINOP[type(node.op)], b), 'nat'
+        if isinstance(node, ast.Compare):
+            terms = [node.left] + list(node.comparators)
+            vals = [self.expr(t) for t in terms]
+            if any(k != 'nat' for _, k in vals):
+                raise Decline('comparison of truth values')
+            parts = []
+            for (a, _), op, (b, _) in zip(vals, node.ops, vals[1:]):
+                if isinstance(op, ast.Eq):
+                    parts.append('(%s == %s)' % (a, b))
+                elif isinstance(op, ast.NotEq):
+                    parts.append('(%s != %s)' % (a, b))
+                else:
+                    raise Decline('unsupported comparison %s' % type(op).__name__)
+            return ('(' + ' && '.join(parts) + ')' if len(parts) > 1 else parts[0]), 'bool'
+        if isinstance(node, ast.UnaryOp) and isinstance(node.op, ast.Not):
+            return '(!%s)' % self.truthy(node.operand), 'bool'
+        if isinstance(node, ast.BoolOp):
+            op = ' && ' if isinstance(node.op, ast.And) else ' || '
+            # truthiness of `a and b` / `a or b` is the conjunction / disjunction of the truthinesses
+            return '(' + op.join(self.truthy(v) for v in node.values) + ')', 'bool'
+        raise Decline('unsupported expression %s' % type(node).__name__)
+
+    def truthy(self, node):
+        term, kind = self.expr(node)
+        return term if kind == 'bool' else '(%s != 0)' % term
+
+    def function(self, fn, want):
+        """Body = simple assignments then `return expr`; result as Lean term of kind `want`."""
+        body = [s for s in fn.body if not (isinstance(s, ast.Expr) and isinstance(getattr(s, 'value', None), ast.Constant))]
+        for st in body[:-1]:
+            if isinstance(st, ast.Assign) and len(st.targets) == 1 and isinstance(st.targets[0], ast.Name):
+                self.env[st.targets[0].id] = self.expr(st.value)
+            else:
+                raise Decline('unsupported statement %s' % type(st).__name__)
+        last = body[-1]
+        if not isinstance(last, ast.Return):
+            raise Decline('no final return')
+        if want == 'bool':
+            return self.truthy(last.value)
+        term, kind = self.expr(last.value)
+        if kind != 'nat':
+            raise Decline('expected a bit set')
+        return term
+
+
+def find_methods(tree):
+    out = {}
+    for node in ast.walk(tree):
+        if isinstance(node, ast.ClassDef):
+            for f in node.body:
+                if isinstance(f, ast.FunctionDef):
+                    out[(node.name, f.name)] = f
+    return out
+
+
+def gen_predicates():
+    src = open(os.path.join(REPO, 'concepts', 'lattice_members.py')).read()
+    methods = find_methods(ast.parse(src))
+    by_name = {}
+    for (cls, name), f in methods.items():
+        by_name.setdefault(name, []).append((cls, f))
+    lines = ['/- GENERATED by harness/extract.py from concepts/lattice_members.py — do not edit.',
+             '   x = self._extent, y = other._extent, t = self.lattice.supremum._extent -/',
+             'namespace FCA.Generated', '']
+    for name in PREDICATES:
+        cands = [f for cls, f in by_name.get(name, []) if cls in ('OrderableMixin', 'RelationsMixin', 'Concept')]
+        if len(cands) != 1:
+            raise Decline('%d definitions of %s' % (len(cands), name))
+        term = Tr().function(cands[0], 'bool')
+        lines.append('def %s (x y t : Nat) : Bool := %s' % (name, term))
+    for name, lean in (('join', 'join_common'), ('meet', 'meet_common')):
+        cands = [f for cls, f in by_name.get(name, []) if cls in ('TransformableMixin', 'Concept')]
+        if len(cands) != 1:
+            raise Decline('%d definitions of Concept.%s' % (len(cands), name))
+        fn = cands[0]
+        tr = Tr()
+        body = [s for s in fn.body if not (isinstance(s, ast.Expr) and isinstance(getattr(s, 'value', None), ast.Constant))]
+        # common = <expr>; extent = ...double(common); return ...mapping[extent]
+        first = body[0]
+        if not (isinstance(first, ast.Assign) and isinstance(first.targets[0], ast.Name) and first.targets[0].id == 'common'):
+            raise Decline('Concept.%s does not start with `common = …`' % name)
+        term, kind = tr.expr(first.value)
+        if kind != 'nat':
+            raise Decline('common is not a bit set')
+        rest = ast.unparse(ast.Module(body=body[1:], type_ignores=[]))
+        if 'double(common)' not in rest or '_mapping[extent]' not in rest:
+            raise Decline('Concept.%s no longer closes `common` and looks it up' % name)
+        lines.append('def %s (x y : Nat) : Nat := %s' % (lean, term.replace(' t ', ' t ')))
+    # the operator aliases must still point at the named methods
+    aliases = {'__le__': 'implies', '__ge__': 'subsumes', '__lt__': 'properly_implies', '__gt__': 'properly_subsumes',
+               '__or__': 'join', '__and__': 'meet'}
+    tree = ast.parse(src)
+    found = {}
+    for node in ast.walk(tree):
+        if isinstance(node, ast.ClassDef):
+            for st in node.body:
+                if isinstance(st, ast.Assign) and isinstance(st.targets[0], ast.Name) and isinstance(st.value, ast.Name):
+                    found[st.targets[0].id] = st.value.id
+    for k, v in aliases.items():
+        if found.get(k) != v:
+            raise Decline('operator %s is no longer an alias of %s' % (k, v))
+    lines += ['', 'end FCA.Generated', '']
+    return '\n'.join(lines)
+
+
+def lean_str(s):
+    return '"' + s.replace('\\', '\\\\').replace('"', '\\"') + '"'
+
+
+def gen_junctors():
+    j = importlib.import_module('concepts.junctors')
+    entries = {'unary': [], 'binary': []}
+    for name in j.__all__:
+        cls = getattr(j, name)
+        if not hasattr(cls, 'pattern'):
+            continue
+        if cls.binary:
+            code = sum(bit for bit, pair in ((1, (True, True)), (2, (True, False)), (4, (False, True)), (8, (False, False)))
+                       if pair in cls.pattern)
+            entries['binary'].append((cls.index, name, cls.kind, cls.order, code))
+        else:
+            code = sum(bit for bit, v in ((1, True), (2, False)) if v in cls.pattern)
+            entries['unary'].append((cls.index, name, cls.kind, cls.order, code))
+    def fmt(l):
+        return ', '.join('⟨%s, %s, %d, %d⟩' % (lean_str(n), lean_str(k), o, c) for _, n, k, o, c in sorted(l))
+    # the Replication -> Implication swap must still be what __call__ does
+    r = j.Relation('L', 'R', [(True, True), (True, False), (False, False)])
+    swap_ok = (type(r).__name__ == 'Implication' and r.left == 'R' and r.right == 'L')
+    lines = ['import FCA.Model.Junctors',
+             '/- GENERATED by harness/extract.py from the classes the metaclass of concepts/junctors.py built — do not edit. -/',
+             'namespace FCA.Generated', '',
+             'def table : JTable where',
+             '  unary := [%s]' % fmt(entries['unary']),
+             '  binary := [%s]' % fmt(entries['binary']), '',
+             '/-- `Relation(l, r, pairs)` of a replication pattern yields `Implication(r, l)` -/',
+             'def replicationSwaps : Bool := %s' % ('true' if swap_ok else 'false'), '',
+             'end FCA.Generated', '']
+    return '\n'.join(lines)
+
+
+def gen_formats():
+    f = importlib.import_module('concepts.formats')
+    cxt = importlib.import_module('concepts.formats.cxt')
+    csvc = importlib.import_module('concepts.formats.csv_context')
+    ws = [c for c in range(sys.maxunicode + 1) if chr(c).isspace()]
+    def s(x):
+        return lean_str(str(x))
+    suffix = sorted(f.Format.by_suffix.items())
+    rstrip = sorted((n, bool(c.dumps_rstrip)) for n, c in f.Format._map.items())
+    lines = ['/- GENERATED by harness/extract.py from concepts/formats/*.py and the running CPython — do not edit. -/',
+             'namespace FCA.Generated', '',
+             'def pyWhitespace : List Nat := [%s]' % ', '.join('0x%X' % c for c in ws),
+             'def cxtSymbols : List (Bool × String) := [%s]' % ', '.join('(%s, %s)' % (str(k).lower(), s(v)) for k, v in sorted(cxt.SYMBOLS.items())),
+             'def csvSymbols : List (Bool × Bool × String) := [%s]' % ', '.join(
+                 '(%s, %s, %s)' % (str(a).lower(), str(b).lower(), s(v)) for a, d in sorted(csvc.SYMBOLS.items()) for b, v in sorted(d.items())),
+             'def csvValueOrder : List Bool := [%s]' % ', '.join(str(k).lower() for k in csvc.VALUES),
+             'def bySuffix : List (String × String) := [%s]' % ', '.join('(%s, %s)' % (s(a), s(b)) for a, b in suffix),
+             'def dumpsRstrip : List (String × Bool) := [%s]' % ', '.join('(%s, %s)' % (s(a), str(b).lower()) for a, b in rstrip),
+             '', 'end FCA.Generated', '']
+    return '\n'.join(lines)
+
+
+def write_if_changed(path, text):
+    old = open(path).read() if os.path.exists(path) else None
+    if old != text:
+        tmp = path + '.tmp%d' % os.getpid()
+        with open(tmp, 'w') as f:
+            f.write(text)
+        os.replace(tmp, path)
+        return True
+    return False
+
+
+def regenerate(log=print):
+    os.makedirs(GEN, exist_ok=True)
+    if REPO not in sys.path:
+        sys.path.insert(0, REPO)
+    status = {}
+    for name, fn in (('Predicates', gen_predicates), ('Junctors', gen_junctors), ('Formats', gen_formats)):
+        path = os.path.join(GEN, name + '.lean')
+        try:
+            text = fn()
+        except Decline as e:
+            status[name] = 'declined: %s' % e
+            continue
+        except Exception as e:  # noqa: BLE001 - the source may have changed arbitrarily
+            status[name] = 'declined: %s: %s' % (type(e).__name__, e)
+            continue
+        changed = write_if_changed(path, text)
+        status[name] = 'regenerated (changed)' if changed else 'regenerated (identical to the committed copy)'
+    return status
+
+
+if __name__ == '__main__':
+    print(regenerate())
